@@ -20,5 +20,5 @@ Print Assumptions C05_stream_identity.
 Example C05_nonvacuous :
   let x := mkoctx true false [110;49;46;100] true in
   let s := [Avail [104;105;10;102]; RdErr; Avail [111;10;98;97]; Eof; Avail [33]] in
-  script_ok s /\ stream_of s = [104;105;10;102;111;10;98;97] /  snd (run_stream x s) = [[110;49;58;32;104;105;10]; [110;49;58;32;102;111;10]; [110;49;58;32;98;97]].
+  script_ok s /\ stream_of s = [104;105;10;102;111;10;98;97] /\ snd (run_stream x s) = [[110;49;58;32;104;105;10]; [110;49;58;32;102;111;10]; [110;49;58;32;98;97]].
 Proof. cbn zeta. split; [repeat constructor; discriminate|]. split; vm_compute; reflexivity. Qed.
